@@ -2,9 +2,10 @@
      src/cascade/shm/dataset.py   Dataset.is_pageoutable, Manager.add / close_callback / page_out /
                                   page_out_at_least / page_in / get / purge (is_exit=False), incl. the
                                   `fix:` commit that releases the pageout lock when the lottery is empty
-     src/cascade/shm/disk.py      Disk._page_out / _page_in, each split in two steps: `JobIo` (the body up
-                                  to the callback: open/write/unlink resp. create/read) and `JobCb` (the
-                                  Manager callback), so requests can interleave between the halves
+     src/cascade/shm/disk.py      Disk._page_out / _page_in as asynchronous jobs whose steps run when the op
+                                  list says: page-out = `JobIo` (attach + write the file), `JobUnlink`
+                                  (shm.unlink of the name), `JobCb` (the Manager callback); page-in = `JobIo`
+                                  (create + read back), `JobCb`; requests can interleave between any two steps
      src/cascade/shm/server.py    the error mapping of LocalServer.start (an exception in a handler
                                   becomes an error response; the loop goes on)
    plus the world outside: named segments (`segs`) and page-out files (`files`), and the two client-side
@@ -86,7 +87,9 @@ Definition add_reader (rd : N) (now : Z) (d : dataset) : dataset :=
        (if (d_first d =? 0)%Z then now else d_first d) now (d_delayed d) (d_written d) (d_closed d).
 
 Inductive jkind : Type := PageOut | PageIn.
-Inductive jphase : Type := IoPending | CbPending (ok : bool).
+(* a page-out body has two observable halves: attach + write the file, then unlink the NAME (a purge can land between
+   them); a page-in body is one step *)
+Inductive jphase : Type := IoPending | UnlinkPending | CbPending (ok : bool).
 
 Record job : Type := mkJob {
   j_id : N;
@@ -284,16 +287,32 @@ Definition update_job (j : N) (f : job -> job) (l : list job) : list job :=
 Definition drop_job (j : N) (l : list job) : list job :=
   filter (fun x => negb (N.eqb (j_id x) j)) l.
 
-Definition finish_io (j : N) (ok : bool) (s : state) : state :=
-  with_jobs (update_job j (set_phase (CbPending ok)) (jobs s)) s.
+Definition to_phase (j : N) (p : jphase) (s : state) : state :=
+  with_jobs (update_job j (set_phase p) (jobs s)) s.
+Definition finish_io (j : N) (ok : bool) (s : state) : state := to_phase j (CbPending ok) s.
 
-(* Disk._page_out body: open segment, write file, unlink *)
+(* Disk._page_out body, first half: attach to the segment (fails if the name is gone), open the file "wb", write the mapping *)
 Definition io_page_out (jb : job) (fault : bool) (s : state) : state :=
   match lookup (j_key jb) (segs s) with
   | None => finish_io (j_id jb) false s
   | Some bs =>
       if fault then finish_io (j_id jb) false s
-      else finish_io (j_id jb) true (with_segs (remove (j_key jb) (segs s)) (with_files (put (j_key jb) bs (files s)) s))
+      else to_phase (j_id jb) UnlinkPending (with_files (put (j_key jb) bs (files s)) s)
+  end.
+
+(* second half: shm.unlink() removes whatever is registered under the name NOW; FileNotFoundError = failed page-out *)
+Definition job_unlink (j : N) (s : state) : state * resp :=
+  match find_job j (jobs s) with
+  | Some jb =>
+      match j_kind jb, j_phase jb with
+      | PageOut, UnlinkPending =>
+          (match lookup (j_key jb) (segs s) with
+           | None => finish_io j false s
+           | Some _ => finish_io j true (with_segs (remove (j_key jb) (segs s)) s)
+           end, RJob true)
+      | _, _ => (s, RJob false)
+      end
+  | None => (s, RJob false)
   end.
 
 (* Disk._page_in body: create segment of ds.size, copy the file into it chunk by chunk *)
@@ -347,7 +366,7 @@ Definition job_cb (j : N) (s : state) : state * resp :=
                if j_orphan jb then s0 else with_dsets (alter (j_key jb) (set_status InMemory) (dsets s0)) s0
            | PageIn, false => purge (j_key jb) s0
            end, RJob true)
-      | IoPending => (s, RJob false)
+      | _ => (s, RJob false)
       end
   | None => (s, RJob false)
   end.
@@ -360,6 +379,7 @@ Inductive op : Type :=
 | Get (k : key) (now : Z) (uuids : list N)
 | Purge (k : key)
 | JobIo (j : N) (fault : bool)
+| JobUnlink (j : N)
 | JobCb (j : N)
 | ReadSeg (k : key)
 | ReadFile (k : key).
@@ -376,6 +396,7 @@ Definition step (s : state) (o : op) : state * resp :=
   | Get k now u => get k now u s
   | Purge k => (purge k s, ROk)
   | JobIo j f => job_io j f s
+  | JobUnlink j => job_unlink j s
   | JobCb j => job_cb j s
   | ReadSeg k => (s, RBytes (lookup k (segs s)))
   | ReadFile k => (s, RBytes (lookup k (files s)))
